@@ -167,9 +167,10 @@ def main():
                 for suffix, v in variants(sp):
                     out["scan_evals"] += 1
                     bad = conflicts(v)
-                    if bad and len(out["failures"]) < 20:
+                    sig = "C16:colour-conflict:%s%s" % (desc["kind"], suffix)
+                    if bad and sum(1 for f in out["failures"] if f["signature"] == sig) < 3:
                         out["failures"].append({
-                            "signature": "C16:colour-conflict:%s%s" % (desc["kind"], suffix),
+                            "signature": sig,
                             "what": "two support elements of equal colour share a global dof (or the colour classes do "
                                     "not partition the support)",
                             "data": dict(desc, grid=gname, variant=suffix, conflicts=[list(b) for b in bad[:5]])})
